@@ -148,10 +148,17 @@ def run(ctx, res):
                     # the condition on the length on this path
                     conds = [(t, v) for t, v in p.cond if (t[0] == "bin" and t[1] in ("Eq", "Gt", "Ne") and t[3] == ("const", 0)
                                                           and isinstance(t[2], tuple) and (t[2] == d["length"]))]
-                    if not conds:
+                    # every decision about the length on this path, whether written as a comparison or as `match length { 0 => .. }`;
+                    # contradictory decisions (the simulator has no arithmetic) mark an infeasible path
+                    zs = set()
+                    for t, v in conds:
+                        zs.add((t[1] == "Eq" and v == 1) or (t[1] in ("Gt", "Ne") and v == 0))
+                    for t, v in p.cond:
+                        if t == d["length"] and v in (0, "other"):
+                            zs.add(v == 0)
+                    if len(zs) != 1:
                         continue
-                    t, v = conds[-1]
-                    zero = (t[1] == "Eq" and v == 1) or (t[1] in ("Gt", "Ne") and v == 0)
+                    zero = zs.pop()
                     key = "construct/%s/%s" % (fn.path.rsplit("::", 1)[-1], kind)
                     if key in seen:
                         continue
@@ -187,9 +194,28 @@ def run(ctx, res):
                     and has_field(e[2], "parents"):
                 nst += 1
                 prior = [c for c in p.events[:i] if c[0] == "cond"]
-                eqs = [c for c in prior if is_call(c[1], "PartialEq::eq") and any(mir.contains(a, lambda x: isinstance(x, tuple) and x[0] == "vfield" and x[3] == "prod") for a in c[1][2])
-                       and any(has_field(a, "production", "Reduction") for a in c[1][2])]
-                longer = [c for c in prior if c[1][0] == "bin" and c[1][1] == "Gt" and has_field(c[1][2], "parents") and has_field(c[1][3], "children") is not None]
+                def about_prod(c):
+                    return (is_call(c[1], "PartialEq::eq") or is_call(c[1], "PartialEq::ne")) and \
+                        any(mir.contains(a, lambda x: isinstance(x, tuple) and x[0] == "vfield" and x[3] == "prod") for a in c[1][2]) and \
+                        any(has_field(a, "production", "Reduction") for a in c[1][2])
+                # `prod == production` holds: eq answered true or ne answered false
+                eqs = [(c[0], c[1], 1 if (c[2] == 1) == is_call(c[1], "PartialEq::eq") else 0) for c in prior if about_prod(c) and c[2] in (0, 1)]
+                # `parents.len() > children.len()` holds, in any spelling of the comparison
+                def longer_of(c):
+                    tm, v = c[1], c[2]
+                    if not (tm[0] == "bin" and tm[1] in ("Gt", "Lt", "Ge", "Le") and v in (0, 1)):
+                        return None
+                    a_par, b_par = has_field(tm[2], "parents"), has_field(tm[3], "parents")
+                    a_chi, b_chi = "children" in fmt(tm[2]), "children" in fmt(tm[3])
+                    if a_par and b_chi and not a_chi:
+                        op = tm[1]
+                    elif b_par and a_chi and not b_chi:
+                        op = {"Gt": "Lt", "Lt": "Gt", "Ge": "Le", "Le": "Ge"}[tm[1]]
+                    else:
+                        return None
+                    # op is now `parents op children`
+                    return {("Gt", 1): 1, ("Le", 0): 1, ("Gt", 0): 0, ("Le", 1): 0, ("Lt", 1): 0, ("Ge", 0): 0}.get((op, v))
+                longer = [(c[0], c[1], longer_of(c)) for c in prior if longer_of(c) is not None]
                 if eqs and eqs[-1][2] == 1 and longer and longer[-1][2] == 1:
                     res.ok(rid6, "replace-children", r.loc(), "prod == production && path longer")
                 else:
